@@ -987,6 +987,24 @@ func accessibleFrom(info *types.Info, node ast.Node, wantPkg string) error {
 		if unexportError != nil {
 			return false
 		}
+		if lit, ok := node.(*ast.CompositeLit); ok {
+			// Positional elements set fields without naming them.
+			t := info.TypeOf(lit)
+			if p, ok := t.Underlying().(*types.Pointer); ok {
+				t = p.Elem()
+			}
+			if st, ok := t.Underlying().(*types.Struct); ok && len(lit.Elts) > 0 {
+				if _, keyed := lit.Elts[0].(*ast.KeyValueExpr); !keyed {
+					for i := 0; i < st.NumFields() && i < len(lit.Elts); i++ {
+						if f := st.Field(i); !f.Exported() && f.Pkg() != nil && f.Pkg().Path() != wantPkg {
+							unexportError = fmt.Errorf("sets unexported field %s", f.Name())
+							return false
+						}
+					}
+				}
+			}
+			return true
+		}
 		ident, ok := node.(*ast.Ident)
 		if !ok {
 			return true
